@@ -10,23 +10,49 @@ SPEC = dict(
                 "reorder), a failing retrieval is retried on the same height, the send never blocks; the stream closes only on cancel, stop, "
                 "feed close or a header arriving with 16 unread responses; after cancel or stop it is closed within two producer steps under "
                 "every failure pattern (refuted for the code before fix-c20-1: stop during a failing retrieval is never noticed), after feed "
-                "close within three producer steps not counting failing retrievals (a height already taken is still answered). The model is "
-                "re-validated on every run against the real Service.Subscribe on ~900 generated schedules with 1-3 concurrent subscriptions "
-                "over real squares. Partial: 'promptly' is counted in producer steps, not wall time (a getAll call in flight is not "
+                "close within three producer steps not counting failing retrievals (a height already taken is still answered). "
+                "The header feed that the node wires into the blob service (Service.Subscribe of nodebuilder/header, passed to blob.NewService by "
+                "nodebuilder/blob) is a second LTS (Blob/Feed.v: NextHeader, blocking send on the unbuffered channel guarded by the context, "
+                "deferred cancel + close) and is composed with the first: for every event sequence the forwarder has sent a prefix of what the "
+                "source handed it, in order, nothing dropped or repeated, at most one header in hand; it closes only on cancel or a source error; "
+                "and END TO END the responses sent are those owed for the headers the SOURCE made ready - every header of the source is answered, "
+                "or is the one in work, or the one in the forwarder's hand, or still ready in the source, in this order, however long a retrieval "
+                "stalls (e2e_prefix_inv; the producer part of every composed run is a run of the subscription LTS, so all of the above carries over). "
+                "Both models are re-validated on every run against the real code: ~900 generated schedules of the real blob.Service.Subscribe with a "
+                "scripted feed, ~400 of the real header feed alone and ~180 of the real composition blob.NewService(..., headerService.Subscribe) "
+                "over real squares, including retrieval outages during which the source makes 18..40 further headers ready. "
+                "Partial: 'promptly' is counted in producer steps, not wall time (a getAll call in flight is not "
                 "interrupted by the service stop); which ready case a Go select takes and data-race freedom are the runtime's; the "
                 "correctness of the blobs that getAll parses out of a square is C11's subject - here the response content is compared "
-                "with the blobs the harness put into the square."),
+                "with the blobs the harness put into the square; the source behind the feed (go-header's pubsub subscription) is scripted "
+                "as an unbounded in-order queue - what pubsub itself drops before NextHeader is outside this check; after a service stop the "
+                "forwarder goroutine stays blocked on its send until the subscriber's context ends (observed, not part of the property)."),
     rule=("one case = one Service with 1..3 concurrent subscriptions on different namespaces (one of them possibly a namespace that never "
           "occurs) over a pool of 40 real blocks (0..3 one-share blobs per namespace and block); per subscription a scripted feed (mostly "
           "consecutive heights, 6% repeats/jumps), scripted outcome of every getAll call (never fails / sometimes / bursts / keeps failing), "
           "consumer pace fast / slow / stalled, 15..150 scheduled steps, in 70% of the cases a cancel, service stop or feed close forced at "
           "a random step (so that over a run they land in every producer state). Observed: channel length after every event, every response "
           "received (height + blob commitments), whether the channel ended closed. Non-trivial = a subscription that received responses "
-          "and saw a failing retrieval or was closed; distinct = distinct Coq case term."),
+          "and saw a failing retrieval or was closed; distinct = distinct Coq case term. "
+          "Feed harness (nodebuilder/header): 'feed' cases = the real Service.Subscribe over a scripted libhead.Subscription, the harness as reader: "
+          "lockstep / slow reader / bursts of 17..40 headers with no read / mixed, cancel or source error at a random step in half of the cases, "
+          "the reader mostly catches up at the end; non-trivial = headers received and (feed closed or reader >= 2 behind). 'compose' cases = "
+          "blob.NewService(nil, getter, byHeight, headerService.Subscribe) with 1..2 subscriptions, the source publishing ahead of the "
+          "subscription, retrieval outcome scripted as above plus long outages (45% of the cases: once a retrieval fails it keeps failing while "
+          "the source makes 18..40 more headers ready), consumer fast / slow / stalled, cancel / service stop / source error forced at a random "
+          "step in 60% of the cases, in 70% everything recovers and is read at the end. Observed at every quiescent point: response channel "
+          "length and number of headers NextHeader handed out; at the end all responses, both channels' closed flags."),
     trusted_base=[
         "model Blob/Subscribe.v hand-written after blob/service.go Subscribe (with fix-c20-1); tied by harness/blob/zz_verif_c20_test.go, which "
         "drives the real Service.Subscribe and whose observations are re-computed by the model inside Coq (vm_compute) on every run",
-        "the harness mocks: header feed (unbuffered channel per subscription, as nodebuilder/header/service.go Subscribe provides), header getter "
+        "model Blob/Feed.v hand-written after nodebuilder/header/service.go Subscribe and the wiring in nodebuilder/blob/module.go; tied by "
+        "harness/nodebuilder/header/zz_verif_c20_feed_test.go, which drives the real Service.Subscribe alone and wired into the real blob.Service; "
+        "it mocks the libhead.Subscriber/Subscription (in-order queue of ready headers or an error; NextHeader prefers a ready item to a cancelled "
+        "context), the header getter (as below) and the share getter (as below); the feed-alone cases are written one number per event and "
+        "decoded by Feed.fdecode inside Coq",
+        "the L3 oracle 'feed:header-dropped' counts NextHeader calls/returns of the scripted source and the length of the feed's channel while the "
+        "reader is known not to read; it reads the closed flag of both channels like the first harness",
+        "in the TestVerifC20 harness (package blob) the mocks are: header feed (unbuffered channel per subscription, as nodebuilder/header/service.go Subscribe provides), header getter "
         "(blocks every getAll call until the schedule decides fail/ok), share getter (gomock; serves namespace data from real squares via "
         "eds.NamespaceData); squares, headers and blobs are real (rsmt2d, headertest, NewBlobV0)",
         "the harness observes that the producer has returned (close(blobCh)) by reading the closed flag of runtime.hchan through unsafe (layout "
